@@ -30,9 +30,17 @@ func (rr *RoundRobinStrategy) NextBackend(r *http.Request) *Backend {
 		return nil
 	}
 
-	// Get the next index in a thread-safe way
-	idx := atomic.AddUint64(&rr.current, 1) % uint64(len(rr.backends))
-	return rr.backends[idx]
+	// Take tickets in a thread-safe way until one falls on a backend that may be offered: an ejected
+	// backend is skipped inside the rotation (at most one full turn), so the eligible ones keep equal
+	// shares instead of the first of them absorbing the skipped turns.
+	n := uint64(len(rr.backends))
+	for range rr.backends {
+		backend := rr.backends[atomic.AddUint64(&rr.current, 1)%n]
+		if backend.eligible() {
+			return backend
+		}
+	}
+	return nil // All backends are unhealthy
 }
 
 // AddBackend adds a backend to the pool
